@@ -2,8 +2,9 @@
 # Demonstrates detection: applies each patch of /verif/mutants (or /verif/seeded/*/patch.diff) to a scratch copy of
 # the repository (outside /repo and /verif), checks that it still compiles and passes the repository's own test
 # suite, runs the quick check of the property it breaks against the scratch copy twice and expects a VIOLATION
-# both times.  Writes mutants/results.json.  The scratch copy and its build output are removed at the end.
-#   usage: selftest_mutants.sh [name-filter]
+# both times (expect=detected), or silence both times for behaviour-preserving negative controls (expect=silent).
+# Appends to mutants/results.jsonl.  The scratch copy and its build output are removed at the end.
+#   usage: selftest_mutants.sh [name-filter]        (VERIF_SCRATCH=<dir> to run two instances side by side)
 cd "$(dirname "$0")" || exit 2
 VERIF=$(pwd)
 SCR=${VERIF_SCRATCH:-/tmp/vmut}
@@ -16,28 +17,32 @@ list() {
 import json,sys,os,glob
 v=sys.argv[1]
 for x in json.load(open(v+'/mutants/index.json')):
-    print(x['name'], x['property'], v+'/mutants/'+x['name']+'.patch')
+    print(x['name'], x['property'], v+'/mutants/'+x['name']+'.patch', x.get('expect','detected'))
 for d in sorted(glob.glob(v+'/seeded/*/meta.json')):
     m=json.load(open(d))
-    print('seeded_'+os.path.basename(os.path.dirname(d)), m['property'], os.path.dirname(d)+'/patch.diff')
+    print('seeded_'+os.path.basename(os.path.dirname(d)), m['property'], os.path.dirname(d)+'/patch.diff', 'detected')
 PY
 }
-list | while read -r NAME PROP PATCH; do
+list | while read -r NAME PROP PATCH EXPECT; do
   case "$NAME" in *"$1"*) ;; *) continue;; esac
   rsync -a --delete --exclude target --exclude .git /repo/ "$SCR/repo/"
   if ! (cd "$SCR/repo" && patch -p1 -s < "$PATCH"); then
     echo "{\"name\":\"$NAME\",\"property\":\"$PROP\",\"status\":\"patch-does-not-apply\"}" >> "$RES"; echo "$NAME: patch does not apply"; continue
   fi
   if ! (cd "$SCR/repo" && CARGO_TARGET_DIR="$SCR/target" cargo test --workspace --no-fail-fast --offline > "$SCR/test.log" 2>&1); then
-    if grep -q '^error' "$SCR/test.log"; then ST=does-not-compile; else ST=suite-fails; fi
+    if grep -qE '^error(\[E[0-9]+\])?: (could not compile|aborting)|^error\[E' "$SCR/test.log"; then ST=does-not-compile; else ST=killed-by-the-repository-suite; fi
     echo "{\"name\":\"$NAME\",\"property\":\"$PROP\",\"status\":\"$ST\"}" >> "$RES"; echo "$NAME: $ST (not a valid mutant)"; continue
   fi
   mkdir -p "$SCR/ev"
   R1=$(VERIF_REPO="$SCR/repo" VERIF_EVIDENCE_DIR="$SCR/ev" "$VERIF/check.sh" "$PROP" quick 2>&1); C1=$?
   R2=$(VERIF_REPO="$SCR/repo" VERIF_EVIDENCE_DIR="$SCR/ev" "$VERIF/check.sh" "$PROP" quick 2>&1); C2=$?
   SIG=$(echo "$R1" | grep -E "^  $PROP/" | head -3 | sed 's/ — .*//' | tr -d ' ' | paste -sd, -)
-  if [ $C1 -eq 1 ] && [ $C2 -eq 1 ] && echo "$R1" | grep -q "^VIOLATION property=$PROP"; then ST=detected; else ST="MISSED(rc=$C1,$C2)"; fi
-  echo "{\"name\":\"$NAME\",\"property\":\"$PROP\",\"status\":\"$ST\",\"signatures\":\"$SIG\"}" >> "$RES"
+  if [ "$EXPECT" = silent ]; then
+    if [ $C1 -eq 0 ] && [ $C2 -eq 0 ] && ! echo "$R1" | grep -q "^VIOLATION"; then ST=silent-as-expected; else ST="FALSE-ALARM(rc=$C1,$C2)"; fi
+  else
+    if [ $C1 -eq 1 ] && [ $C2 -eq 1 ] && echo "$R1" | grep -q "^VIOLATION property=$PROP"; then ST=detected; else ST="MISSED(rc=$C1,$C2)"; fi
+  fi
+  echo "{\"name\":\"$NAME\",\"property\":\"$PROP\",\"expect\":\"$EXPECT\",\"status\":\"$ST\",\"signatures\":\"$SIG\"}" >> "$RES"
   echo "$NAME [$PROP]: $ST $SIG"
 done
 TAG=$(printf '%s' "$SCR/repo" | cksum | cut -d' ' -f1)
